@@ -195,6 +195,18 @@ Definition estimate_jump (name : string) (m : mode) : Z :=
 
 Definition sym_has (k : string) (st : symtab) : bool := match lookup k st with Some _ => true | None => false end.
 
+(* far JMP: pass 1 never sees a bare number here (SegmentExp.Eval wraps both sides into AddExp nodes, which GetConstValue
+   does not look into), so the ocode carries the operand text `[DWORD|WORD ]seg:off`; codegen splits it at the colon and
+   reads both parts with ParseInt(…, 10, …).  The text of a side is a decimal numeral exactly when the evaluated side is a
+   (wrapped) number; any other size keyword in front makes the segment part unreadable. *)
+Definition seg_num (e : exp) : option Z :=
+  match e with
+  | ENum z | EImm (FNum z) => Some z
+  | EAdd (EMul (EImm (FNum z)) []) [] | EAdd (EMul (ENum z) []) [] => Some z
+  | _ => None
+  end.
+Definition far_dt_ok (dt : datatype) : bool := match dt with DtNone | DtWord | DtDword => true | _ => false end.
+
 Definition do_jcc (s : p1state) (name : string) (ops : list exp) : p1state :=
   match ops with
   | [op] =>
@@ -205,9 +217,9 @@ Definition do_jcc (s : p1state) (name : string) (ops : list exp) : p1state :=
           | ENum v =>
               let est := match bmode s with M16 => 3 | M32 => estimate_jump name M32 end in
               push_ocode (add_loc s est) (OJcc (bmode s) name (JNum v))
-          | ESeg _ l (Some r) =>
+          | ESeg dt l (Some r) =>
               let est := match bmode s with M16 => 8 | M32 => 7 end in
-              match get_const l, get_const r with
+              match (if far_dt_ok dt then seg_num l else None), seg_num r with
               | Some sv, Some ov => if String.eqb name "JMP" then push_ocode (add_loc s est) (OJmpFar (bmode s) sv ov) else set_diag (add_loc s est)
               | _, _ => if String.eqb name "JMP" then push_ocode (add_loc s est) OJmpFarText else set_diag (add_loc s est)
               end
@@ -302,10 +314,10 @@ Fixpoint mentions (n : string) (e : exp) : bool :=
    in it?  (Go walks the map with a visited set; reachability within |macros| hops is the same relation.)  The association
    list may hold shadowed older entries: only the value [lookup] returns counts. *)
 Fixpoint equ_reaches (fuel : nat) (macros : list (string * exp)) (n : string) (e : exp) : bool :=
-  mentions n e ||
+  if mentions n e then true else          (* [if], not [||]/[&&]: vm_compute is call-by-value and would walk every path *)
   match fuel with
   | O => false
-  | S f => existsb (fun kv => mentions (fst kv) e && match lookup (fst kv) macros with Some v => equ_reaches f macros n v | None => false end) macros
+  | S f => existsb (fun kv => if mentions (fst kv) e then match lookup (fst kv) macros with Some v => equ_reaches f macros n v | None => false end else false) macros
   end.
 
 Definition step (s : p1state) (st : stmt) : p1state :=
